@@ -243,13 +243,14 @@ CHECKS["C02"] = {
     "level": "fault_enumeration",
     "rule": ("(1) exhaustive: every single-bit flip of one whole wire record (encrypted length header, its MAC, body, body MAC) for payload sizes {0,1,2,16,33} (thorough: 9 sizes up to 300), at stream positions 0, 1, 2, 498..501, 999, 1000 (around the key rotations after 500 and 1000 records; every flip is offered to a value copy of the reader in the right state), XX and KK, both directions; "
              "(2) rapid: sessions (XX/KK, all versions) whose writer emits 1-12 records (sizes 0..65535), captured at the wire and edited by scripts of up to 4 operations out of flip, truncate, drop, dup, swap, replay, reflect (the reader's own ciphertext of the other direction), inject bytes, swap header; "
-             "the edited stream is consumed through Machine.ReadMessage, NoiseGrpcConn.Read (in-memory ProxyConn) and NoiseConn.Read (hook constructor). (3) rapid: streams of up to 1700 records in which an earlier record (distance 1, 2, 250, 499, 500, 501, 1000, 1500 or random; i.e. within and across key rotations, aligned to the rotation period or not) is delivered in place of record k, and in addition every earlier record at a power-of-two distance (+-1) and at 250/500/750/1000/1500 (+-1) is offered to a value copy of the reader at that position. Oracle: the records returned before the first error equal the first records written, "
+             "the edited stream is consumed through Machine.ReadMessage, NoiseGrpcConn.Read (in-memory ProxyConn) and NoiseConn.Read (hook constructor). (3) rapid: streams of up to 1700 records in which an earlier record (distance 1, 2, 250, 499, 500, 501, 1000, 1500 or random; i.e. within and across key rotations, aligned to the rotation period or not) is delivered in place of record k, and in addition every earlier record at a power-of-two distance (+-1) and at 250/500/750/1000/1500 (+-1) is offered to a value copy of the reader at that position. (4) TestC02SessionReuse: one NoiseGrpcConn per party through 2-4 handshakes (it is the credentials object, re-used for every connection of a session), readers that stop in the middle of a record, next handshake over a fresh transport: nothing of an earlier session may be returned under the new one. Oracle: the records returned before the first error equal the first records written, "
              "their number does not exceed the number of leading untouched records, and untouched leading records are all returned (no spurious error). Non-trivial: the script changed the byte stream; distinct by case."),
     "exhaustive_scope": "all single-bit flips of the stated records",
     "assumptions": ["reading stops at the first error (as the net.Conn users do)", "scrypt cost lowered by the verif hook"],
     "units": [
         {"pkg": "mboxprop", "run": "TestC02BitFlips", "kind": "plain", "shards": (4, 16), "timeout": (900, 3600)},
         {"pkg": "mboxprop", "run": "TestC02EditScripts", "checks": (4000, 60000), "shards": (1, 8), "timeout": (900, 3600)},
+        {"pkg": "mboxprop", "run": "TestC02SessionReuse", "checks": (600, 10000), "shards": (1, 4), "timeout": (900, 3600)},
         {"pkg": "mboxprop", "run": "TestC02CrossRotation", "checks": (1500, 20000), "shards": (1, 8), "timeout": (900, 3600)},
     ],
 }
